@@ -1,9 +1,10 @@
 SPECIFICATION SimSpec
 CONSTANTS
-  WP = 6
-  WD = 6
+  WP = 8
+  WD = 8
+  WU = 3
   NK = 2
-  MaxOps = 4
+  MaxOps = 5
   MaxLag = 1
   MaxResub = 1
   LiveLimit = 3
